@@ -35,6 +35,8 @@ pub fn valuations(seed: u64, n: usize) -> Vec<Valuation> {
     Valuation { name: "utf8".into(), img: ["é".as_bytes().to_vec(), "日本".as_bytes().to_vec()] },
     Valuation { name: "block332/15".into(), img: [vec![0x61; 332], vec![0x7a; 15]] },
     Valuation { name: "len4headers".into(), img: [vec![3, 0, 0, 0], vec![4, 0, 0, 0, 9]] },
+    Valuation { name: "ws-padded".into(), img: [b" a ".to_vec(), b"\tb\n".to_vec()] },
+    Valuation { name: "unicode-ws".into(), img: ["\u{3000}x\u{a0}".as_bytes().to_vec(), "y \u{2003}".as_bytes().to_vec()] },
   ];
   // rotate by seed so different seeds lead with different valuations
   let k = (seed as usize) % all.len();
